@@ -41,14 +41,14 @@ type Snap struct {
 	Time   time.Time
 	Params types.Params
 
-	Defs     map[string]types.ServiceDefinition
-	DefRaw   map[string]string
-	Bindings map[string]types.ServiceBinding // bkey(service, provider)
-	OwnerBindings map[string]OwnerBindingRec // raw key hex -> parsed
-	ProvOwner map[string]string              // provider hex -> owner hex
-	OwnerProv map[string]bool                // owner hex + "/" + provider hex
-	Pricing   map[string]types.Pricing       // bkey
-	Withdraw  map[string]string              // owner hex -> addr hex
+	Defs          map[string]types.ServiceDefinition
+	DefRaw        map[string]string
+	Bindings      map[string]types.ServiceBinding // bkey(service, provider)
+	OwnerBindings map[string]OwnerBindingRec      // raw key hex -> parsed
+	ProvOwner     map[string]string               // provider hex -> owner hex
+	OwnerProv     map[string]bool                 // owner hex + "/" + provider hex
+	Pricing       map[string]types.Pricing        // bkey
+	Withdraw      map[string]string               // owner hex -> addr hex
 
 	Contexts map[string]types.RequestContext
 	CtxRaw   map[string]string
@@ -57,15 +57,15 @@ type Snap struct {
 	NewQ     map[string][]int64 // 0x10
 	NewPtr   map[string]int64   // 0x12
 
-	Requests   map[string]types.CompactRequest
-	ActiveBind map[string]ActiveRec // request id -> by-binding marker (0x14)
+	Requests      map[string]types.CompactRequest
+	ActiveBind    map[string]ActiveRec // request id -> by-binding marker (0x14)
 	ActiveBindDup []string
-	ActiveID   map[string]bool      // 0x15
-	Responses  map[string]types.Response
-	Volumes    map[string]uint64 // consumerBech \x00 service \x00 providerBech
-	Earned     map[string]sdk.Int // provider hex (base denom)
-	EarnedRawKeys map[string]string // raw key hex -> provider hex
-	OwnerEarned map[string]sdk.Int // owner hex
+	ActiveID      map[string]bool // 0x15
+	Responses     map[string]types.Response
+	Volumes       map[string]uint64  // consumerBech \x00 service \x00 providerBech
+	Earned        map[string]sdk.Int // provider hex (base denom)
+	EarnedRawKeys map[string]string  // raw key hex -> provider hex
+	OwnerEarned   map[string]sdk.Int // owner hex
 
 	Bal    map[string]sdk.Int // tracked addr hex -> base-denom balance
 	Supply sdk.Int
